@@ -3,7 +3,7 @@
    The model (Model/C18_PDE.v) is over exact rationals; the linear solver (any function of the call number, the
    operator and the right-hand side, returning the solution alone or a tuple with extra values), scipy's interpolation
    routines, the observation map and the PDE form (any function of parameter and time) are universally quantified. *)
-From CV Require Import Base.Tac Base.LinAlg Base.Cmp Base.QcLin Model.C18_PDE Proofs.C18_Alg Proofs.C18_PDE Proofs.C18_Linear.
+From CV Require Import Base.Tac Base.LinAlg Base.Cmp Base.QcLin Model.C18_Spline Model.C18_PDE Proofs.C18_Alg Proofs.C18_PDE Proofs.C18_Linear Proofs.C18_Spline Proofs.C18_Observe.
 From Coq Require Import QArith Qcanon.
 Local Open Scope Qc_scope.
 
@@ -523,3 +523,216 @@ Example C18_example :
       let r := snd (be_system (fst (fst (ex_form p (nth (S k) times 0)))) (snd (fst (ex_form p (nth (S k) times 0)))) (nth k levels []) dt) in
       qmatvec M (sret_sol (ex_solver k M r)) = r.
 Proof. exact ex_heat. Qed.
+
+(* ======================= third deepening round: the interpolation routines INSIDE the model ======================= *)
+(* interp1_quad (Model/C18_PDE.v, Model/C18_Spline.v) is scipy's interp1d(kind='quadratic') -- the interpolating C^1 piecewise
+   quadratic whose break points are the interior midpoints of the sorted nodes --, computed in exact arithmetic; it is what
+   ss_run evaluates in the correspondence.  Whenever it answers:
+   (a) an observation node that is a solution node gets the solution value there, whatever the order of either grid; *)
+Theorem C18_interp1_quad_nodes :
+  forall (gs sol go out : qv), interp1_quad gs sol go = Ok out ->
+  length out = length go /\
+  forall i a x, nth_error go i = Some x -> nth_error gs a = Some x -> nth i out 0 = nth a sol 0.
+Proof. exact interp1_quad_nodes. Qed.
+Print Assumptions C18_interp1_quad_nodes.
+
+(* (b) every polynomial of degree <= 2 on the solution nodes is reproduced exactly at EVERY observation point; *)
+Theorem C18_interp1_quad_reproduces_quadratics :
+  forall (gs go : qv) (a b c : Qc) (out : qv),
+  interp1_quad gs (map (fun x => a + b * x + c * x * x) gs) go = Ok out ->
+  out = map (fun x => a + b * x + c * x * x) go.
+Proof. exact interp1_quad_reproduces_quadratics. Qed.
+Print Assumptions C18_interp1_quad_reproduces_quadratics.
+
+(* (c) it is THE element of the spline space through the data: any coefficient vector d (truncated-power basis 1, x, x^2,
+   (x - m_j)_+^2) whose spline takes the solution values at the nodes gives exactly the returned values. *)
+Theorem C18_interp1_quad_unique :
+  forall (gs sol go out d : qv), interp1_quad gs sol go = Ok out -> length d = length gs ->
+  map (spl_eval 2 (quad_knots gs) d) gs = sol -> out = map (spl_eval 2 (quad_knots gs) d) go.
+Proof. exact interp1_quad_unique. Qed.
+Print Assumptions C18_interp1_quad_unique.
+
+(* the same two facts for the interpolating spline of any degree k over any interior knots (quadratic: interp1d; cubic: each
+   variable of RectBivariateSpline) *)
+Theorem C18_spline_nodes :
+  forall (k : nat) (knots gs sol go out : qv), spl_interp k knots gs sol go = SplOk out ->
+  length out = length go /\
+  forall i a x, nth_error go i = Some x -> nth_error gs a = Some x -> nth i out 0 = nth a sol 0.
+Proof. exact spl_interp_nodes. Qed.
+Print Assumptions C18_spline_nodes.
+
+Theorem C18_spline_reproduces_polynomials :
+  forall (k : nat) (knots gs go pc out : qv), length pc = S k -> gs <> [] ->
+  spl_interp k knots gs (map (peval k pc) gs) go = SplOk out -> out = map (peval k pc) go.
+Proof. exact spl_interp_poly. Qed.
+Print Assumptions C18_spline_reproduces_polynomials.
+
+(* tied to SteadyStateLinearPDE.observe with the routine that runs (unequal grids, no observation map) *)
+Theorem C18_steady_observe_quad_nodes :
+  forall (G : grids) (gs go sol : qv), g_eq G = false -> g_sol G = Some gs -> g_obs G = Some go ->
+  forall out, ss_observe None interp1_quad G sol = Ok (true, A1 out) ->
+  length out = length go /\
+  forall i a x, nth_error go i = Some x -> nth_error gs a = Some x -> nth i out 0 = nth a sol 0.
+Proof. exact ss_observe_quad_nodes. Qed.
+Print Assumptions C18_steady_observe_quad_nodes.
+
+Theorem C18_steady_observe_quad_polynomials :
+  forall (G : grids) (gs go : qv) (a b c : Qc), g_eq G = false -> g_sol G = Some gs -> g_obs G = Some go ->
+  forall r, ss_observe None interp1_quad G (map (fun x => a + b * x + c * x * x) gs) = Ok r ->
+  r = (true, A1 (map (fun x => a + b * x + c * x * x) go)).
+Proof. exact ss_observe_quad_poly. Qed.
+Print Assumptions C18_steady_observe_quad_polynomials.
+
+(* interp2_cubic is RectBivariateSpline(grid_sol, time_steps, solution)(grid_obs, time_obs) (tensor product of interpolating
+   cubic not-a-knot splines, points outside the rectangle evaluated at the nearest boundary) in exact arithmetic; it is what
+   td_run evaluates.  Shape of its answer, and "exactly at coinciding nodes and times" for the spline route -- the hypothesis
+   of C18_observe_interp_nodes_partial proved for the routine that runs.  What stays PARTIAL for the code as it is: the call
+   must answer (>= 4 nodes and >= 4 levels, increasing), see C18_observe_coinciding_refuted. *)
+Theorem C18_interp2_cubic_shape :
+  forall (gs ts : qv) (sol : list qv) (go to : qv) (m : qm), interp2_cubic gs ts sol go to = Ok m ->
+  length m = length go /\ Forall (fun row => length row = length to) m.
+Proof. exact interp2_cubic_shape. Qed.
+Print Assumptions C18_interp2_cubic_shape.
+
+Theorem C18_interp2_cubic_exact_at_nodes : exact_at_nodes interp2_cubic.
+Proof. exact interp2_cubic_exact_at_nodes. Qed.
+Print Assumptions C18_interp2_cubic_exact_at_nodes.
+
+Theorem C18_observe_cubic_nodes :
+  forall (Q : quirks) (G : grids) (gs go times tobs : qv) (levels : list qv) (m : qm),
+  g_eq G && time_test Q times tobs = false -> coincide_restriction Q G times tobs levels = None ->
+  g_sol G = Some gs -> g_obs G = Some go ->
+  interp2_cubic gs times levels go tobs = Ok m -> (length tobs <> 1)%nat ->
+  td_observe Q None interp2_cubic G times tobs levels = Ok (true, A2 m) /\
+  forall i j a b, nth_error go i = nth_error gs a -> nth_error go i <> None ->
+                  nth_error tobs j = nth_error times b -> nth_error tobs j <> None ->
+                  nth j (nth i m []) 0 = nth a (nth b levels []) 0.
+Proof. exact td_observe_cubic_nodes. Qed.
+Print Assumptions C18_observe_cubic_nodes.
+
+(* ======================= the repaired squeeze ======================= *)
+(* it never changes the VALUES (C-order flattening of the result) ... *)
+Theorem C18_squeeze_values : forall a : arr, arr_flat (squeeze a) = arr_flat a.
+Proof. exact squeeze_values. Qed.
+Print Assumptions C18_squeeze_values.
+
+(* ... its guard on a 2-d array of shape (r, c): with at least one row, the last axis is dropped exactly when c = 1 (the code's
+   `ndim > 1 and shape[-1] == 1`); rank-0 and rank-1 results are never touched ... *)
+Theorem C18_squeeze_guard :
+  forall (r c : nat) (m : qm), rect r c m ->
+  squeeze (A2 m) = if ((c =? 1)%nat || (r =? 0)%nat) then A1 (map (fun row => hd 0 row) m) else A2 m.
+Proof. exact squeeze_guard. Qed.
+Print Assumptions C18_squeeze_guard.
+
+Theorem C18_squeeze_low_rank : (forall x, squeeze (A0 x) = A0 x) /\ (forall v, squeeze (A1 v) = A1 v).
+Proof. exact squeeze_low_rank. Qed.
+Print Assumptions C18_squeeze_low_rank.
+
+(* ... every modelled observation map keeps the trailing (time) axis of a 2-d array, or (u[0]) returns a rank-1 row ... *)
+Theorem C18_omap_keeps_time_axis :
+  forall (code : omap_code) (r c : nat) (m : qm) (b : arr),
+  rect r c m -> (1 <= r)%nat -> apply_obsmap (omap_fun code) (A2 m) = Ok b ->
+  (exists r' m', b = A2 m' /\ rect r' c m') \/ (exists v, b = A1 v /\ length v = c).
+Proof. exact omap_keeps_time_axis. Qed.
+Print Assumptions C18_omap_keeps_time_axis.
+
+(* ... hence for ONE observation time and every modelled observation map the guard is decided as the code decides it: a 2-d
+   result has trailing axis 1 and loses exactly that axis, a rank-1 result is left alone; values unchanged *)
+Theorem C18_squeeze_decided_as_code :
+  forall (code : omap_code) (r : nat) (m : qm) (b : arr),
+  rect r 1 m -> (1 <= r)%nat -> apply_obsmap (omap_fun code) (A2 m) = Ok b ->
+  ((exists r' m', b = A2 m' /\ rect r' 1 m' /\ squeeze b = A1 (map (fun row => hd 0 row) m')) \/
+   (exists v, b = A1 v /\ length v = 1%nat /\ squeeze b = b))
+  /\ arr_flat (squeeze b) = arr_flat b.
+Proof. exact squeeze_decided_as_code. Qed.
+Print Assumptions C18_squeeze_decided_as_code.
+
+Theorem C18_squeeze_keeps_several_times :
+  forall (r c : nat) (m : qm), rect r c m -> (1 <= r)%nat -> c <> 1%nat -> squeeze (A2 m) = A2 m.
+Proof. exact squeeze_keeps_several_times. Qed.
+Print Assumptions C18_squeeze_keeps_several_times.
+
+(* ======================= every return convention of linalg_solve the code accepts ======================= *)
+(* `isinstance(returned_values, tuple)`: a value alone -> (value, None); a tuple, a 1-tuple or a tuple subclass (x, v1, ..)
+   -> (x, (v1, ..)); these are the only two shapes, and in both the returned solution satisfies the assembled system whenever
+   the solver's vector does.  (An EMPTY tuple is not an accepted convention: `returned_values[0]` raises IndexError; the
+   harness cell ss/solver-empty-tuple pins that.) *)
+Theorem C18_steady_solve_conventions :
+  forall (P I : Type) (solver : nat -> qm -> qv -> sret I) (sform : P -> qm * qv) (s : sstate) (p : P),
+  let A := fst (sform p) in let b := snd (sform p) in
+  (forall x, solver 0%nat A b = SPlain x ->
+     ss_solve I solver (ss_assemble P sform s p) = Ok (x, None)) /\
+  (forall x extra, solver 0%nat A b = STuple x extra ->
+     ss_solve I solver (ss_assemble P sform s p) = Ok (x, Some extra)) /\
+  (forall u info, ss_solve I solver (ss_assemble P sform s p) = Ok (u, info) ->
+     (exists x, solver 0%nat A b = SPlain x /\ u = x /\ info = None) \/
+     (exists x extra, solver 0%nat A b = STuple x extra /\ u = x /\ info = Some extra)) /\
+  (forall u info, ss_solve I solver (ss_assemble P sform s p) = Ok (u, info) ->
+     qmatvec A (sret_sol (solver 0%nat A b)) = b -> qmatvec A u = b).
+Proof. exact ss_solve_conventions. Qed.
+Print Assumptions C18_steady_solve_conventions.
+
+(* ======================= solutions with two (or three) space axes ======================= *)
+(* time levels are matrices; equal grids and the final time: the last stored level *)
+Theorem C18_observe_2dspace_final :
+  forall (Q : quirks) (G : grids) (times : qv) (T : Qc) (levels : list qm) (u : qm),
+  g_eq G = true -> last_opt times = Some T -> last_opt levels = Some u ->
+  td_observe_2dspace Q G times [T] levels = Ok [u].
+Proof. exact observe_2dspace_final. Qed.
+Print Assumptions C18_observe_2dspace_final.
+
+(* equal grids, every requested time a stored one: one stored level -- all space axes untouched -- per requested time, in the
+   order requested (the first level whose time equals the requested time) *)
+Theorem C18_observe_2dspace_coinciding :
+  forall (Q : quirks) (G : grids) (times tobs : qv) (levels : list qm) (out : list qm),
+  q_spline_route Q = false -> g_eq G = true -> time_test Q times tobs = false ->
+  td_observe_2dspace Q G times tobs levels = Ok out ->
+  length out = length tobs /\
+  forall j t, nth_error tobs j = Some t ->
+    exists b, index_of t times = Some b /\ nth_error times b = Some t /\ nth j out [] = nth b levels [].
+Proof. exact observe_2dspace_coinciding. Qed.
+Print Assumptions C18_observe_2dspace_coinciding.
+
+Theorem C18_observe_2dspace_coinciding_defined :
+  forall (Q : quirks) (G : grids) (times tobs : qv) (levels : list qm),
+  q_spline_route Q = false -> g_eq G = true -> time_test Q times tobs = false ->
+  (forall t, In t tobs -> In t times) ->
+  exists out, td_observe_2dspace Q G times tobs levels = Ok out.
+Proof. exact observe_2dspace_coinciding_defined. Qed.
+Print Assumptions C18_observe_2dspace_coinciding_defined.
+
+(* anything else is refused, never interpolated *)
+Theorem C18_observe_2dspace_refused :
+  forall (Q : quirks) (G : grids) (times tobs : qv) (levels : list qm),
+  g_eq G && time_test Q times tobs = false ->
+  (g_eq G = false \/ (exists t, In t tobs /\ ~ In t times) \/ q_spline_route Q = true) ->
+  td_observe_2dspace Q G times tobs levels = Er EValue.
+Proof. exact observe_2dspace_refused. Qed.
+Print Assumptions C18_observe_2dspace_refused.
+
+(* non-vacuity of the new hypotheses *)
+Example C18_example_interp1_quad :
+  let gs := qvec [0 # 1; 2 # 1; 1 # 1; 4 # 1] in
+  interp1_quad gs (qvec [1 # 1; 5 # 1; 2 # 1; 3 # 1]) (qvec [1 # 2; 3 # 1; 2 # 1; 0 # 1])
+    = Ok (qvec [22 # 19; 106 # 19; 5 # 1; 1 # 1]) /\
+  interp1_quad gs (map (fun x => qc (3 # 1) + qc (-1 # 1) * x + qc (2 # 1) * x * x) gs) (qvec [1 # 2; 7 # 2])
+    = Ok (qvec [3 # 1; 24 # 1]).
+Proof. exact ex_interp1_quad. Qed.
+
+Example C18_example_2dspace :
+  let l0 := [[qc (1 # 1); qc (2 # 1)]; [qc (3 # 1); qc (4 # 1)]] in
+  let l1 := [[qc (5 # 1); qc (6 # 1)]; [qc (7 # 1); qc (8 # 1)]] in
+  let l2 := [[qc (9 # 1); qc (0 # 1)]; [qc (1 # 2); qc (3 # 2)]] in
+  let times := [qc (0 # 1); qc (1 # 2); qc (2 # 1)] in
+  td_observe_2dspace quirks_minimal (init_grids None None) times [qc (2 # 1); qc (0 # 1)] [l0; l1; l2] = Ok [l2; l0] /\
+  td_observe_2dspace quirks_minimal (init_grids None None) times [qc (2 # 1)] [l0; l1; l2] = Ok [l2] /\
+  td_observe_2dspace quirks_minimal (init_grids None None) times [qc (1 # 1)] [l0; l1; l2] = Er EValue.
+Proof. exact ex_2dspace. Qed.
+
+Example C18_example_squeeze :
+  let m := [[qc (1 # 1)]; [qc (2 # 1)]; [qc (3 # 1)]] in
+  rect 3 1 m /\
+  apply_obsmap (omap_fun (OMScale (qc (2 # 1)))) (A2 m) = Ok (A2 [[qc (2 # 1)]; [qc (4 # 1)]; [qc (6 # 1)]]) /\
+  squeeze (A2 [[qc (2 # 1)]; [qc (4 # 1)]; [qc (6 # 1)]]) = A1 [qc (2 # 1); qc (4 # 1); qc (6 # 1)] /\
+  apply_obsmap (omap_fun OMFirst) (A2 m) = Ok (A1 [qc (1 # 1)]).
+Proof. exact ex_squeeze. Qed.
